@@ -440,7 +440,7 @@ class Run(object):
       if op.get("buf"):
         kw["bufsize"] = op["buf"]
       yv = R.Recv(s, **kw)
-    elif k == "send" and self.socks:
+    elif k == "send" and self.socks and self.nmark < 250:
       s = self._sock(op.get("sock", 0))
       eff["sock"] = s.idx
       self.nmark += 1
